@@ -130,6 +130,9 @@ void PolarGrid::refineGrid(const int divideBy2)
 
 std::vector<double> PolarGrid::divideVector(const std::vector<double>& vec, const int divideBy2) const
 {
+    if (divideBy2 < 0 || divideBy2 > 30) {
+        throw std::invalid_argument("divideBy2 must be between 0 and 30.");
+    }
     const double powerOfTwo = 1 << divideBy2;
     size_t vecSize          = vec.size();
     size_t resultSize       = vecSize + (vecSize - 1) * (powerOfTwo - 1);
